@@ -27,7 +27,7 @@ Fld(r, f, dflt) == IF f \in DOMAIN r THEN r[f] ELSE dflt
 (* ideal context of a host-level Context object *)
 CtxOf(c, id) == IF id \in DOMAIN c THEN c[id] ELSE State0
 PutCtx(c, id, S) == [x \in (DOMAIN c) \cup {id} |-> IF x = id THEN S ELSE c[x]]
-Settle(S) == [S EXCEPT !.sig = "", !.err = NoErr, !.out = "", !.rv = VNil, !.hasrv = FALSE, !.cerr = NoErr, !.depth = 0]
+Settle(S) == [S EXCEPT !.sig = "", !.err = NoErr, !.out = "", !.rv = VNil, !.hasrv = FALSE, !.cerr = NoErr, !.depth = 0, !.inloop = 0]
 
 NoResidue(o) == /\ Fld(o, "ctrl", 0) = 0 /\ Fld(o, "lvl", 0) = 0
                 /\ ~Fld(o, "brk", FALSE) /\ ~Fld(o, "cont", FALSE) /\ ~Fld(o, "ret", FALSE)
@@ -40,7 +40,8 @@ ObsVar(o, n) == LET idx == {j \in DOMAIN o.vars : o.vars[j].n = n} IN
 IsSafeName(n) == n \in {"$S", "$T", "$U", "$ARG"}
 DumpWhy(o, S) ==
   IF \E n \in DOMAIN S.vars : ObsVar(o, n).val # S.vars[n]
-    THEN "variable differs from the specification"
+    THEN LET n == CHOOSE n \in DOMAIN S.vars : ObsVar(o, n).val # S.vars[n] IN
+         "variable " \o n \o " differs from the specification; expected: " \o ToJson(S.vars[n])
   ELSE IF \E j \in DOMAIN o.vars : o.vars[j].n \notin DOMAIN S.vars /\ o.vars[j].val.t # "null"
     THEN "a variable the program never assigned holds a value"
   ELSE IF \E j \in DOMAIN o.vars : o.vars[j].lock
@@ -64,11 +65,11 @@ RunWhy(o, S) ==      \* S = ideal state after the run
        IF o.oc # "runtime_error" THEN "the specification raises an error, the run reported " \o o.oc
        ELSE IF Catchable(S.err) /\ o.name # S.err.name THEN "wrong error: expected " \o S.err.name \o " got " \o o.name
        ELSE IF ~Catchable(S.err) /\ o.name # "" THEN "a non-catchable error was expected, got " \o o.name
-       ELSE IF o.out # S.out THEN "output before the error differs"
+       ELSE IF o.out # S.out THEN "output before the error differs; expected: " \o S.out
        ELSE IF ~NoResidue(o) THEN "control state left behind after a reported error"
        ELSE ""
   ELSE IF o.oc # "ok" THEN "the specification completes, the run reported " \o o.oc \o " " \o Fld(o, "name", "")
-  ELSE IF o.out # S.out THEN "output differs"
+  ELSE IF o.out # S.out THEN "output differs; expected: " \o S.out
   ELSE IF Has(o, "rv") /\ o.rv # ExpectRv(S) THEN "returned value differs"
   ELSE IF ~NoResidue(o) THEN "control state left behind"
   ELSE ""
@@ -76,7 +77,13 @@ RunWhy(o, S) ==      \* S = ideal state after the run
 (* ------------------------------ one step ------------------------------ *)
 \* returns [C |-> new contexts, why |-> "" or reason]
 StepResult(st, o, c) ==
-  CASE st.op \in {"exec", "step"} ->
+  CASE st.op = "step" /\ ~Has(st, "reject") ->
+         LET r == RunStepwise(st.ast, CtxOf(c, st.ctx))
+             S == IF r.first.kind = "" THEN [r.S EXCEPT !.sig = ""] ELSE [r.S EXCEPT !.sig = "err", !.err = r.first]
+         IN  [C |-> PutCtx(c, st.ctx, Settle(r.S)),
+              why |-> LET w == RunWhy([o EXCEPT !.rv = [t |-> "none"]], [S EXCEPT !.hasrv = FALSE]) IN
+                      IF w # "" THEN "stepwise: " \o w ELSE ""]
+    [] st.op \in {"exec", "step"} ->
          IF Has(st, "reject") THEN \* a text the generator made invalid: must be rejected, context untouched
               [C |-> c, why |-> IF o.oc # "parse_error" THEN "an invalid text was not rejected: " \o o.oc
                                 ELSE IF ~NoResidue(o) THEN "parse state left behind" ELSE ""]
